@@ -402,7 +402,7 @@ class FunctionLogger:
                         raise ValueError(
                             "More than one match for duplicate entry."
                         )
-                    idx = np.argwhere(duplicate_flag)[0, 0]
+                    idx = np.argwhere(duplicate_flag.all(axis=1))[0, 0]
                     N = self.n_evals[idx]
 
                     # if fsd is not None: # We already in the case of the heteroskedastic noise
